@@ -26,7 +26,8 @@ def gen_cases(ctx):
         grid = r.sample(grid, min(len(grid), 3 if not ctx.thorough else 8))
         for gi, pr in enumerate(grid):
             k_ = nper(ind)
-            pr = tuple(pr[i] if i < k_ else 0 for i in range(3)) + (2.0 if ind in HAS_MULT else 0.0,)
+            # multipliers: the usual 2, a small one, and one large enough for band / exit levels to cross zero
+            pr = tuple(pr[i] if i < k_ else 0 for i in range(3)) + ([2.0, 25.0, 0.5][gi % 3] if ind in HAS_MULT else 0.0,)
             p = max(pr[:3] + (1,))
             n = 3 * p + 12
             bars = ind in NO_SCALAR or (ind in ("TR", "ATR", "KC", "FAST", "SLOW") and gi % 2 == 1)
@@ -38,7 +39,9 @@ def gen_cases(ctx):
                 mk = lambda s_, x, f, d: ("n", s_, x * f + d)
             factors = [2.0 ** k for k in (r.sample(ks, 2) if not ctx.thorough else r.sample(ks, 12))] + [r.choice([3.0, 0.1, 1e-5, 12345.678])]
             for fi, f in enumerate(factors):
-                d = r.choice([1.0, 100.0, 0.5]) * (max(b if not bars else max(b[:4]) for b in base))
+                # shifts: of the order of the price level, and (last factor) 2^20 or 2^30 times it, where a shift-invariant
+                # statistic must still be unchanged within the rounding of its (now large) inputs
+                d = (r.choice([1.0, 100.0, 0.5]) if fi < len(factors) - 1 else r.choice([2.0 ** 20, 2.0 ** 30])) * (max(b if not bars else max(b[:4]) for b in base))
                 ops = [new_op(s_, ind, pr) for s_ in range(3)]
                 for v in base:
                     ops += [mk(0, v, 1.0, 0.0), mk(1, v, f, 0.0), mk(2, v, 1.0, d)]
@@ -87,6 +90,10 @@ def check_impl(ctx, cases):
                 tot = sum(abs(tps[q] * w[q][6]) for q in range(1, len(w)) if tps[q] != tps[q - 1])
                 if tot == 0.0 or flowmax / tot > 1000:
                     continue
+                # the direction of a flow is a discontinuous function of the prices where two consecutive typical prices
+                # tie: rescaling by a non-power of two legitimately breaks the tie either way (ill-conditioned step)
+                if not c.meta["pow2"] and any(abs(tps[q] - tps[q - 1]) <= 1e-12 * abs(tps[q]) and w[q][6] != 0.0 for q in range(1, len(w))):
+                    continue
             if ind == "CCI":
                 # the property's conditioning rule for CCI (C03): c = maxmag / (0.015 * MAD) <= 1e6; flat windows are C08's
                 p_ = c.meta["params"][0]
@@ -112,14 +119,23 @@ def check_impl(ctx, cases):
                     # well-conditioned only: skip near-degenerate ratios
                     if any(abs(x) > 1e6 for x in va):
                         continue
-                    ref = max(scale, 100.0 if ind != "ER" else 1.0) * 1e3
+                    # ROC and PPO are well-conditioned in their inputs; the window ratios get three more digits
+                    ref = max(scale, 100.0 if ind != "ER" else 1.0) * (1.0 if ind in ("ROC", "PPO") else 1e3)
             else:
                 ref = scale
-            def differs(got, want, level, r_):
-                """SD and band half-widths are compared on variances (sqrt amplifies rounding near flat windows)"""
+            def differs(got, want, level, r_, sharp=False):
+                """SD and band half-widths are compared on variances (sqrt amplifies rounding near flat windows).
+                sharp (shift comparison): the rounding a shift legitimately causes in a variance is that of inputs of
+                magnitude `level` perturbed by their own rounding: 2*sd*(u*level) + (u*level)^2, not (u*level^2)"""
                 if ind == "SD":
+                    if sharp:
+                        return abs(got[0] ** 2 - want[0] ** 2) > 2.0 * r_ * level * abs(want[0]) + (r_ * level) ** 2
                     return abs(got[0] ** 2 - want[0] ** 2) > r_ * level * level
                 if ind in ("BB",):
+                    if sharp:
+                        return (abs(got[0] - want[0]) > r_ * level or
+                                any(abs((got[q] - got[0]) ** 2 - (want[q] - want[0]) ** 2) >
+                                    2.0 * r_ * level * abs(want[q] - want[0]) * max(1.0, abs(c.meta["params"][3])) + (r_ * level * max(1.0, abs(c.meta["params"][3]))) ** 2 for q in (1, 2)))
                     return (abs(got[0] - want[0]) > r_ * level or
                             any(abs((got[q] - got[0]) ** 2 - (want[q] - want[0]) ** 2) > r_ * level * level * 4.0 for q in (1, 2)))
                 return any(abs(x - y) > r_ * level for x, y in zip(got, want))
